@@ -12,10 +12,17 @@ G = {}
 MAXL = 6
 
 
+def _fp(c):
+    """Cheap fingerprint of everything resolution reads from a citation."""
+    return (repr(c.metadata), tuple(c.groups.items()), getattr(getattr(c, "edition_guess", None), "short_name", None))
+
+
 def setup(tier):
     tk.get(("ac",))
     G["pool"] = alphabet.build_pool(MAXL)
     G["letters"] = alphabet.LETTERS
+    G["pristine"] = {l: [_fp(c) for c in objs] for l, objs in G["pool"].items()}
+    G["restored"] = 0
 
 
 class Seqs:
@@ -40,6 +47,14 @@ def cits_for(case):
         pool = G["pool"]
         if len(case["seq"]) > MAXL or any(l not in pool for l in case["seq"]):
             return None
+        # Every sequence must be an independent trial: if an earlier evaluation left a pool object modified (resolution
+        # is not supposed to write to the citations it is given), rebuild that letter's objects before using them.
+        G["restored"] = 0
+        for i, l in enumerate(case["seq"]):
+            if _fp(pool[l][i]) != G["pristine"][l][i]:
+                fresh = alphabet.build_pool(MAXL, only=l)[l]
+                pool[l] = fresh
+                G["restored"] += 1
         return [pool[l][i] for i, l in enumerate(case["seq"])]
     from eyecite import get_citations
 
@@ -92,6 +107,8 @@ def base_labels(res, case, cits):
     from eyecite.models import FullCitation
 
     res.label("source:alphabet" if "seq" in case else "source:document")
+    if "seq" in case and G.get("restored"):
+        res.label("pool-object-was-modified-by-an-earlier-resolution")
     has_full = any(isinstance(c, FullCitation) for c in cits)
     has_non = any(not isinstance(c, FullCitation) for c in cits)
     return has_full and has_non
